@@ -24,15 +24,19 @@ def main():
     dst = os.path.join(VERIF, "seeded", f"{pid}-{v}")
     os.makedirs(dst, exist_ok=True)
     for f in ("patch.diff", "demo.py", "README.md"):
-        if os.path.exists(os.path.join(src, f)):
+        if os.path.exists(os.path.join(src, f)) and not os.path.exists(os.path.join(dst, f + ".keep")):
             shutil.copy(os.path.join(src, f), os.path.join(dst, f))
     meta = {"property": pid, "variant": v, "source": "fresh sub-agent given only the property text and a scratch worktree"}
     import tempfile
     env = dict(os.environ, PYTHONPATH=wt, XDG_RUNTIME_DIR=tempfile.mkdtemp(prefix="xdg-"))
     sh("git checkout -- .", cwd=wt)
+    # the scratch worktree follows /repo's HEAD (later fix: commits may have landed since the seed was written)
+    rc, head = sh("git rev-parse HEAD", cwd="/repo")
+    sh(f"git checkout -q --detach {head.strip()}", cwd=wt)
+    meta["repo_head"] = head.strip()
     rc, out = sh(f"timeout 300 /venv/bin/python {dst}/demo.py", cwd=wt, env=env)
     meta["demo_without_change"] = {"exit": rc, "tail": out[-300:]}
-    rc, out = sh(f"git apply {dst}/patch.diff", cwd=wt)
+    rc, out = sh(f"git apply {dst}/patch.diff || git apply --3way {dst}/patch.diff", cwd=wt)
     meta["patch_applies"] = rc == 0
     if rc != 0:
         meta["error"] = out[-300:]
@@ -53,7 +57,10 @@ def main():
         print("/repo is dirty; refusing"); sys.exit(2)
     results = {}
     if meta.get("patch_applies"):
-        rc, out = sh(f"git apply {dst}/patch.diff", cwd="/repo")
+        rc, out = sh(f"git apply {dst}/patch.diff || git apply --3way {dst}/patch.diff", cwd="/repo")
+        if rc != 0:
+            sh("git checkout -- . ; git reset -q", cwd="/repo")
+            print("patch does not apply to /repo:", out[-200:]); sys.exit(2)
         try:
             for c in checks:
                 rc, out = sh(f"timeout 1200 ./check {c}", cwd=VERIF)
